@@ -36,6 +36,9 @@ func (m VMsg) String() string {
 	if m.Kind == "AE" {
 		return fmt.Sprintf("AE(term%+d,%s)", m.Term, m.Cand)
 	}
+	if m.Kind == "TO" {
+		return "election-timeout"
+	}
 	t := ""
 	if m.Transfer {
 		t = ",transfer"
@@ -114,6 +117,7 @@ type c06Result struct {
 	stableOps int
 	viol      []string // rule|signature|detail
 	grants    int
+	selfVotes int
 	faulted   bool
 }
 
@@ -232,6 +236,34 @@ func c06Run(c C06Case) c06Result {
 		case "AE":
 			req := &raft.AppendEntriesRequest{RPCHeader: Header(m.Cand), Term: term, Leader: []byte("addr-" + m.Cand)}
 			resp, _, answered = h.RPC(sim.KHeartbeat, m.Cand, req, nil)
+		case "TO":
+			// the server's own election timer fires (timers are an hour long): the
+			// peers grant its pre-vote and refuse its vote request. A vote request
+			// it sends for term T shows that it has given its vote of T to itself.
+			time.Sleep(2*time.Hour + time.Millisecond)
+			for round := 0; round < 6; round++ {
+				synctest.Wait()
+				out := w.Net.TakeScripted()
+				if len(out) == 0 {
+					break
+				}
+				for _, om := range out {
+					switch q := om.Req.(type) {
+					case *raft.RequestPreVoteRequest:
+						w.Net.Answer(om, &raft.RequestPreVoteResponse{RPCHeader: Header(om.To), Term: q.Term - 1, Granted: true}, nil)
+					case *raft.RequestVoteRequest:
+						if prev, ok := granted[q.Term]; ok && prev != "self" {
+							res.viol = append(res.viol, fmt.Sprintf("R1|C06/R1/two-candidates-granted-in-one-term|step %d %v: stands for term %d itself after a grant to %s", step, m, q.Term, prev))
+						}
+						granted[q.Term] = "self"
+						res.selfVotes++
+						w.Net.Answer(om, &raft.RequestVoteResponse{RPCHeader: Header(om.To), Term: q.Term, Granted: false}, nil)
+					default:
+						w.Net.Answer(om, nil, sim.ErrSimRefused)
+					}
+				}
+			}
+			synctest.Wait()
 		}
 		crashed := h.In.Dead()
 		if crashed {
@@ -351,6 +383,7 @@ func c06Alphabet(full bool) []VMsg {
 			out = append(out, VMsg{Kind: "AE", Term: t, Cand: c})
 		}
 	}
+	out = append(out, VMsg{Kind: "TO"})
 	return out
 }
 
@@ -472,7 +505,10 @@ func TestC06Enumerate(t *testing.T) {
 }
 
 func genVMsg(t *rapid.T) VMsg {
-	m := VMsg{Kind: rapid.SampledFrom([]string{"RV", "RV", "RV", "PV", "AE"}).Draw(t, "kind")}
+	m := VMsg{Kind: rapid.SampledFrom([]string{"RV", "RV", "RV", "RV", "PV", "AE", "TO"}).Draw(t, "kind")}
+	if m.Kind == "TO" {
+		return m
+	}
 	m.Term = rapid.IntRange(-1, 2).Draw(t, "term")
 	m.Cand = rapid.SampledFrom([]string{"a", "a", "b", "b", "x", "n"}).Draw(t, "cand")
 	m.Log = rapid.IntRange(0, 3).Draw(t, "log")
